@@ -328,6 +328,40 @@ pub fn text_field_cases(reg: &Registry, entries: &[(&str, &[u8])]) -> Vec<RCase>
     out
 }
 
+/// text formats: a character whose case mapping changes its UTF-8 length, inserted at the start of every line; and
+/// the first two of them at the start of the text combined with every truncation point and with a two-byte
+/// character inserted at every offset (byte offsets computed on a case-folded copy then point beside the text)
+pub fn case_mapping_cases(reg: &Registry, entries: &[&str], cap: usize, seeds_per_entry: usize) -> Vec<RCase> {
+    let mut out = vec![];
+    let mut per_entry: BTreeMap<&str, usize> = BTreeMap::new();
+    for s in &reg.seeds {
+        if !entries.contains(&s.entry) {
+            continue;
+        }
+        let n = per_entry.entry(s.entry).or_insert(0);
+        *n += 1;
+        if *n > seeds_per_entry {
+            continue;
+        }
+        let b = s.bytes();
+        let mut starts = vec![0u32];
+        starts.extend(b.iter().enumerate().filter(|(_, c)| **c == b'\n').map(|(i, _)| i as u32 + 1).take(60));
+        for ch in mutate::CASE_LENGTH_CHARS {
+            for st in &starts {
+                out.push(RCase::seeded(s.entry, &s.name, vec![Mut::Insert { at: Pos::Abs(*st), data: Bytes(ch.as_bytes().to_vec()) }]));
+            }
+        }
+        for ch in &mutate::CASE_LENGTH_CHARS[..2] {
+            let lead = Mut::Insert { at: Pos::Abs(0), data: Bytes(ch.as_bytes().to_vec()) };
+            for o in mutate::sweep_offsets(b.len() + 1, cap) {
+                out.push(RCase::seeded(s.entry, &s.name, vec![Mut::Trunc(Pos::Abs(o)), lead.clone()]));
+                out.push(RCase::seeded(s.entry, &s.name, vec![Mut::Insert { at: Pos::Abs(o), data: Bytes("\u{e9}".as_bytes().to_vec()) }, lead.clone()]));
+            }
+        }
+    }
+    out
+}
+
 /// leak probes over one block header: every offset x width {1,2,4} x field value, each repeated `reps` times
 pub fn header_leak_cases(entry: &str, note: &str, args: &[Vec<u8>], target: usize, header_at: usize, header_len: usize, reps: u32) -> Vec<RCase> {
     let mut out = vec![];
